@@ -26,7 +26,7 @@ func genCase(r *kit.Rand, i int, tier string) (chain, stop, class string, n int)
 		nodes = append(nodes, kit.Pick(r, mids))
 	}
 	b := kit.Pick(r, []int{1, 2, 7, 10, 50, 1000})
-	term := kit.Pick(r, []string{"post", "post", "influx", "influx", "influx", "alert", "udfpost", "fail", "where"})
+	term := kit.Pick(r, []string{"post", "post", "influx", "influx", "influx", "alert", "alert", "udfpost", "fail", "fail", "where", "loop"})
 	hasAlert := false
 	switch term {
 	case "influx":
@@ -39,8 +39,15 @@ func genCase(r *kit.Rand, i int, tier string) (chain, stop, class string, n int)
 		}
 	case "udfpost":
 		nodes = append(nodes, "udf", "post")
+	case "loop":
+		nodes = append(nodes, "loop")
 	case "fail":
-		// a node failing in the middle: outputs on both sides of it
+		// a node failing in the middle: outputs on both sides of it (sometimes an alert node upstream,
+		// whose error path must still close its topic)
+		if r.Chance(1, 3) {
+			nodes = append(nodes, "alert")
+			hasAlert = true
+		}
 		nodes = append(nodes, fmt.Sprintf("fail:%d", kit.Pick(r, []int{0, 1, 5, 40})))
 		nodes = append(nodes, kit.Pick(r, []string{"post", "influx:5", "where"}))
 	default:
@@ -63,6 +70,10 @@ func genCase(r *kit.Rand, i int, tier string) (chain, stop, class string, n int)
 	if hasFail && class == "gated" {
 		class = "drained"
 	}
+	if hasAlert && class == "immediate" && r.Chance(1, 2) {
+		class = "early"
+	}
+	hasLoop := term == "loop"
 	// what fits between the ingest edge and the first output that blocks while the gate is closed
 	block := 0
 	for j, k := range nodes {
@@ -112,6 +123,17 @@ func genCase(r *kit.Rand, i int, tier string) (chain, stop, class string, n int)
 	// keep the writer from blocking while the outputs are gated (the ingest edge holds another edgeCap)
 	if class == "gated" && n > downstream+edgeCap-100 {
 		n = downstream + edgeCap - 100
+	}
+	if hasLoop && class == "gated" {
+		// the loopback node writes its backlog into write_points while StopTask holds tm.mu: it deadlocks
+		// (known finding) once backlog > free slots; the witness is in the corpus, generated cases stay
+		// below it except for a few in the thorough tier
+		if !(thorough && r.Chance(1, 6)) && n > edgeCap/2 {
+			n = 1 + n%(edgeCap/2)
+		}
+	}
+	if hasLoop && class == "immediate" {
+		n = 50
 	}
 	if hasAlert && n > 400 {
 		// every alert event is persisted and POSTed: keep these cases small
